@@ -97,3 +97,53 @@ add("C10", "E4", "exploration",
     "compared with the last committed state of a reference model through the library and the independent reader.",
     "A pointer naming an intact orphan file is indistinguishable on disk from a committed version (only identity/schema/openability judged there).",
     "DESIGN.md 3 C10")
+add("C19", "E1", "model_checking",
+    "stateless interleaving exploration of the real lock code at syscall / S3-request granularity + enumerated holder-kill points",
+    "Every interleaving of 2-3 contenders over the real FileLock (open/flock/close syscalls, real flock on tmpfs) and over "
+    "the real S3LockProvider with heartbeat threads, clock jumps past the lease and process pauses; critical sections must "
+    "never overlap (without lease lapse), owner changes only on absent or lapsed lock objects, acquire()/is_held() True imply "
+    "ownership at that instant, a blocked acquirer times out inside [timeout, timeout+poll]; a real child process is "
+    "SIGKILLed after every lock-level step and a contender must then acquire.",
+    "flock between distinct open file descriptions of one process behaves like between processes; in-memory S3 with "
+    "conditional writes and ETag = content hash (as on AWS); virtual clock.",
+    "DESIGN.md 3 C19")
+add("C05", "E2", "model_checking",
+    "explicit-state BFS over operation histories on real tables (canonical-state dedupe) x table-location spellings",
+    "Breadth-first search over all operation histories up to a depth bound (append, multi-append tx, delete, expire, "
+    "delete-snapshot, gc with 3 graces, ageing, open/commit/rollback of transactions, failed commit) where every "
+    "transition calls the real API on a real table, for 20+ spellings of the table location (absolute, relative, symlinked, "
+    "prefix-of-internal-directory names, S3 prefixes). At every gc transition the deleted set is compared with the "
+    "independently computed reachable and in-flight sets, every retained snapshot is re-read, and old orphans must be gone.",
+    "Canonical form merges states that differ only in opaque names/ids; a no-dedupe differential run guards the abstraction (thorough).",
+    "DESIGN.md 2.4 E2, 3 C05")
+add("C09", "E2", "model_checking",
+    "explicit-state BFS over operation histories on real tables; every retained snapshot re-read after every transition",
+    "Same history search (clock modes TICK, FROZEN, STEP-BACK, with and without retention): the bytes of manifest lists and "
+    "manifests, file set and rows of every retained snapshot are compared with what was recorded at its commit after every "
+    "later transition; lookups by id and by every probe timestamp are compared with the reference 'most recently committed "
+    "retained snapshot not newer than t'; deleting the current snapshot must repoint to the most recently committed survivor.",
+    "Commit order comes from the reference model, not from ids or timestamps.",
+    "DESIGN.md 3 C09")
+add("C15", "E2", "model_checking",
+    "explicit-state BFS over operation histories + exhaustive enumeration of small snapshot forests for parent repointing",
+    "Same history search with an independent invariant checker on the metadata JSON and manifests after every transition "
+    "(current in retained, nearest-retained-true-ancestor parents, strictly increasing sequence numbers, snapshot log, "
+    "carried entries keep their origin, exact deletes, current never expired, metadata log bound) plus all parent maps "
+    "over <=4/5 nodes x all kept subsets for repoint_parents_to_surviving_ancestors against a reference.",
+    "Ancestry and origins come from the reference model's full commit history.",
+    "DESIGN.md 3 C15")
+add("C14", "E3", "fault_enumeration",
+    "exhaustive damage / fault enumeration: every reachable file x damage class x read API and option",
+    "Every file reachable from the current snapshot x {deleted, zero length, truncation at every structural boundary, "
+    "garbage, region overwrites, byte flips (all bytes in thorough), sibling swap} and every storage call of every read x "
+    "{fault once, persistent, permanent} x 15 read configurations: the call must raise or return exactly the undamaged answer.",
+    "Damage that the independent parser still accepts (and unverified data that still decodes) is counted, not judged.",
+    "DESIGN.md 3 C14")
+add("C07", "E3", "fault_enumeration",
+    "exhaustive fault enumeration over every storage call of a collection + damage classes of every reachable metadata-plane file and marker",
+    "Every storage call of garbage_collect x {fault once, persistent, permanent}, every metadata-plane file and marker x "
+    "{missing, zero length, every Avro boundary truncation, garbage, sibling swap}, escaping listing entries and "
+    "un-stat-able markers, on a table with 3 retained snapshots, open transactions and an abandoned marker: nothing "
+    "reachable or protected (ground truth from the independent reader on the undamaged table) may be deleted.",
+    "Parseable damage is out of scope (counted); faults on deletes of true orphans may be swallowed.",
+    "DESIGN.md 3 C07")
